@@ -35,14 +35,14 @@ Print Assumptions C09_model_order_sorted.
 (* all tasks of a removed finished change are removed with it *)
 Theorem C09_tasks_go_with_change : forall p order s c id,
   NoDup (map pc_id order) -> In c order -> pc_ready c <> None -> has_id (ps_changes s) (pc_id c) ->
-  ~ has_id (r_changes (prune_with p order s)) (pc_id c) -> r_panic (prune_with p order s) = false ->
+  ~ has_id (r_changes (prune_with p order s)) (pc_id c) ->
   mem id (pc_tasks c) = true -> ~ In id (map pt_id (r_tasks (prune_with p order s))).
 Proof. exact tasks_go_with_change. Qed.
 Print Assumptions C09_tasks_go_with_change.
 
 (* ... and only with it: a task that no removed finished change lists stays if its change is still there or it is young *)
 Theorem C09_tasks_kept_with_change : forall p order s id ch sp,
-  has_task (ps_tasks s) id ch sp -> r_panic (prune_with p order s) = false ->
+  has_task (ps_tasks s) id ch sp ->
   (forall c, In (c, RemoveReady) (vs_of p order) -> mem id (pc_tasks c) = false) ->
   (has_id (r_changes (prune_with p order s)) ch \/ prune_limit p <= sp) ->
   In id (map pt_id (r_tasks (prune_with p order s))).
@@ -67,7 +67,6 @@ Print Assumptions C09_abort_only_after.
 Theorem C09_status_untouched : forall p order s t, In t (ps_tasks s) ->
   (forall c, In (c, AbortIt) (vs_of p order) -> mem (pt_id t) (pc_tasks c) = false) ->
   (forall c, In (c, RemoveReady) (vs_of p order) -> mem (pt_id t) (pc_tasks c) = false) ->
-  r_panic (prune_with p order s) = false ->
   (existsb (fun c => (pc_id c =? pt_change t)%N) (r_changes (prune_with p order s)) = true \/ prune_limit p <= pt_spawn t) ->
   In t (r_tasks (prune_with p order s)).
 Proof. exact status_untouched. Qed.
@@ -80,13 +79,23 @@ Theorem C09_expired_gone : forall p order s x,
 Proof. exact expired_gone. Qed.
 Print Assumptions C09_expired_gone.
 
-(* Prune does not always complete: on the faithful model the abort of an old unready change whose tasks are
-   Do, Done, Done (in task order) panics (unexpectedly became unready); KNOWN_FINDINGS key
-   prune-abort-transient-ready-panic, replayed on the implementation on every run (DESIGN finding 11 reached through Prune).
-   The theorems above that speak about the final state carry the hypothesis r_panic = false for this reason. *)
-Theorem C09_prune_completes_refuted : exists p s, r_panic (prune p s) = true.
-Proof. exists panic_params, panic_witness. exact prune_abort_panics. Qed.
-Print Assumptions C09_prune_completes_refuted.
+(* Prune completes: every change of the visiting order is visited exactly once, every change whose visit decided a
+   removal is gone at the end, and the abort has run exactly on the changes whose visit decided it, in visiting order.
+   (Before the repair d3068df of /repo this was false: the abort of an old unready change with tasks Do, Done, Done
+   panicked in the middle of Prune; that history is kept as regression case 0 of the driver and as C09_abort_regression.) *)
+Theorem C09_prune_completes : forall p order s,
+  map fst (vs_of p order) = order /\
+  (forall c d, In (c, d) (vs_of p order) -> removes d = true -> ~ has_id (r_changes (prune_with p order s)) (pc_id c)) /\
+  r_aborted (prune_with p order s) =
+    map (fun cd => pc_id (fst cd)) (filter (fun cd => match snd cd with AbortIt => true | _ => false end) (vs_of p order)).
+Proof. exact prune_completes. Qed.
+Print Assumptions C09_prune_completes.
+
+Theorem C09_abort_regression :
+  let r := prune abort_params abort_witness in
+  map (fun t => (pt_id t, pt_status t)) (r_tasks r) = [(1, 1); (2, 6); (3, 6)]%N /\ map pc_ready (r_changes r) = [None] /\ r_aborted r = [1%N].
+Proof. exact abort_witness_result. Qed.
+Print Assumptions C09_abort_regression.
 
 (* non-vacuity: a state in which one old finished change goes, with its task; a young one stays; an old unready one is aborted *)
 Example C09_example :
@@ -94,5 +103,5 @@ Example C09_example :
                 [mkPT 1 4 (-1000) 1; mkPT 2 4 (-50) 2; mkPT 3 3 (-1000) 3] [mkExp 1 (-500) 100] [mkExp 1 (-50) 100] in
   let r := prune (mkParams 0 0 None 100 200 5 []) s in
   map pc_id (r_changes r) = [2; 3]%N /\ map (fun t => (pt_id t, pt_status t)) (r_tasks r) = [(2, 4); (3, 5)]%N /\
-  r_aborted r = [3%N] /\ r_warnings r = [] /\ length (r_notices r) = 1%nat /\ r_panic r = false.
+  r_aborted r = [3%N] /\ r_warnings r = [] /\ length (r_notices r) = 1%nat.
 Proof. vm_compute. repeat split; reflexivity. Qed.
